@@ -533,3 +533,40 @@ fn c02_shape_twin() {
     assert!(eos < one || eos < two, "VACUITY: the minimum is attained");
     core::mem::forget(lat);
 }
+
+
+// one instantiation of the generic lattice code per connector kind (the generic functions are
+// monomorphised: `Lattice::insert_node::<RawConnector>` is different compiled code)
+//@ c02_shape_n2_raw {"tier":"thorough","desc":"optimality on the full 2-character lattice with the raw (bigram feature) connector","bounds":"N=2, 3 spans, raw connector 2x2 ids, 3 templates, scorer 3 bases/4 cells, |cost|<2^20","symbolic":"word costs, ids, feature rows, scorer arrays","functions":["Lattice::insert_node::<RawConnector>","Lattice::search_min_node::<RawConnector>","Lattice::insert_eos::<RawConnector>","RawConnector::cost","Scorer::accumulate_cost"],"fs":2048,"unwind":10,"timeout":2400,"mem_gb":24}
+#[cfg(kani)]
+#[kani::proof]
+fn c02_shape_n2_raw() {
+    let conn = sym_raw_connector(2, 2);
+    viterbi_shape(&conn, 2, 2, 2, 2, &N2_FULL, 2);
+}
+
+//@ c02_shape_n2_dual {"tier":"thorough","desc":"optimality on the full 2-character lattice with the dual connector","bounds":"N=2, 3 spans, dual connector 2x2 ids, 2x2 class matrix, 8 raw lanes","symbolic":"word costs, ids, class maps, matrix cells, feature rows, scorer arrays","functions":["Lattice::insert_node::<DualConnector>","Lattice::search_min_node::<DualConnector>","Lattice::insert_eos::<DualConnector>","DualConnector::cost"],"fs":2048,"unwind":10,"timeout":2400,"mem_gb":24}
+#[cfg(kani)]
+#[kani::proof]
+fn c02_shape_n2_dual() {
+    let conn = sym_dual_connector(2, 2);
+    viterbi_shape(&conn, 2, 2, 2, 2, &N2_FULL, 2);
+}
+
+//@ c02_search_min_raw {"tier":"thorough","desc":"Bellman step with the raw connector: arg-min over a boundary of 2 arbitrary nodes","bounds":"M=2 nodes, raw connector 2x2","symbolic":"node costs/ids, feature rows, scorer arrays, left id","functions":["Lattice::search_min_node::<RawConnector>","RawConnector::cost"],"fs":2048,"unwind":10,"timeout":1800,"mem_gb":16}
+#[cfg(kani)]
+#[kani::proof]
+fn c02_search_min_raw() {
+    let (nr, nl) = (2, 2);
+    let conn = sym_raw_connector(nr, nl);
+    let lat = lattice_with_boundary(2, nr, nl);
+    let left = any_below_u16(nl);
+    let (idx, cost) = lat.verif_search_min_node(1, left, &conn);
+    let b = &lat.verif_ends()[1];
+    assert!((idx as usize) < 2);
+    for j in 0..2 {
+        assert!(cost <= b[j].min_cost + conn.cost(b[j].right_id, left));
+    }
+    kani::cover!(idx == 0);
+    core::mem::forget(lat);
+}
